@@ -129,6 +129,53 @@ Proof.
   - intros j _ E. apply Z.eqb_eq in E. lia.
 Qed.
 
+(* the same for a real-valued quantised depth, as the code has it *)
+Lemma rmask_exactly_one (P : Type) (rq : P -> R) n p :
+  plane_number_in_range n (rq p) -> exactly_one P n (rmask rq) p.
+Proof.
+  intros (k & E & Hk). exists (Z.to_nat k). unfold rmask. rewrite E. split; [lia|]. split.
+  - apply Reqb_true. f_equal. lia.
+  - intros j _ A. apply Reqb_true in A. apply eq_IZR in A. lia.
+Qed.
+
+Lemma rmask_disjoint (P : Type) (rq : P -> R) i j p : rmask rq i p = true -> rmask rq j p = true -> i = j.
+Proof. unfold rmask. intros A B. apply Reqb_true in A, B. rewrite A in B. apply eq_IZR in B. lia. Qed.
+
+(* every "integer part" style quantiser of a value in [0, n) is a plane number: floor, floor(x + 1/2), ... *)
+Lemma Int_part_in_range n y : (0 <= y < INR n)%R -> plane_number_in_range n (IZR (Int_part y)).
+Proof.
+  intros [H0 H1]. exists (Int_part y). split; [reflexivity|].
+  destruct (base_Int_part y) as [A B]. rewrite INR_IZR_INZ in H1. set (k := Int_part y) in *. clearbody k. split.
+  - assert (H : (-1 < IZR k)%R) by lra. apply lt_IZR in H. lia.
+  - assert (H : (IZR k < IZR (Z.of_nat n))%R) by lra. apply lt_IZR in H. exact H.
+Qed.
+
+Lemma set_targets_any_quantiser (P : Type) (rq : P -> R) n (img : image P) ch p :
+  plane_number_in_range n (rq p) ->
+  let m := rmask rq in
+  exactly_one P n m p /\
+  sum_upto n (fun i => b2R (m i p)) = 1%R /\
+  sum_upto n (fun i => target P m img i ch p) = img ch p /\
+  focus P n m img ch p = img ch p.
+Proof.
+  intros Hq m. assert (E : exactly_one P n m p) by (apply rmask_exactly_one, Hq).
+  split; [exact E|]. split; [apply masks_sum_one, E|]. split; [apply targets_sum, E|apply focus_is_image, E].
+Qed.
+
+Lemma depth_out_range n x : plane_number_in_range n x -> (0 <= depth_out n x <= 1)%R.
+Proof.
+  intros (k & -> & Hk). unfold depth_out, divider.
+  destruct (Nat.eqb (n - 1) 0) eqn:E.
+  - apply Nat.eqb_eq in E. assert (k = 0%Z) by lia. subst k. simpl. lra.
+  - apply Nat.eqb_neq in E. assert (Hp : (0 < INR (n - 1))%R) by (apply lt_0_INR; lia).
+    assert (Hk1 : (IZR k <= INR (n - 1))%R).
+    { rewrite INR_IZR_INZ. apply IZR_le. lia. }
+    assert (Hk0 : (0 <= IZR k)%R) by (apply IZR_le; lia).
+    split.
+    + apply Rmult_le_pos; [exact Hk0|]. left. apply Rinv_0_lt_compat, Hp.
+    + apply Rmult_le_reg_r with (INR (n - 1)); [exact Hp|]. unfold Rdiv. rewrite Rmult_assoc, Rinv_l by lra. lra.
+Qed.
+
 (* without the range condition the masks are still pairwise disjoint *)
 Lemma qmask_disjoint (P : Type) (rho : P -> Z) i j p : qmask rho i p = true -> qmask rho j p = true -> i = j.
 Proof. unfold qmask. intros A B. apply Z.eqb_eq in A, B. lia. Qed.
@@ -614,4 +661,19 @@ Proof.
   rewrite Rlt_bool_true in H.
   - destruct H as (A & _). unfold D2B. simpl fst. simpl snd. symmetry. exact A.
   - rewrite Rabs_pos_eq by lra. apply Rlt_le_trans with 1%R; [lra|]. change 1%R with (bpow radix2 0). apply bpow_le. unfold emax32. lia.
+Qed.
+
+(* the executable model driven by observed plane numbers *)
+Lemma exec_from_quant_correct n qs img :
+  (forall k, (k < length qs)%nat -> (0 <= nth k qs 0 < Z.of_nat n)%Z) ->
+  (forall chn, In chn img -> length chn = length qs) ->
+  let '(mk, _, foc) := exec_from_quant n qs img in
+  (forall k, (k < length qs)%nat -> count_true (column mk k) = 1%nat) /\ foc = img.
+Proof.
+  intros Hq Hc. unfold exec_from_quant.
+  assert (P1 : forall k, (k < length qs)%nat -> count_true (column (masks_of n qs) k) = 1%nat)
+    by (intros k Hk; apply masks_of_partition; [exact Hk|apply Hq, Hk]).
+  split; [exact P1|].
+  apply (focus_of_is_image _ img (length qs)); [exact Hc| |exact P1].
+  intros row Hrow. apply length_rows_masks_of in Hrow. exact Hrow.
 Qed.
